@@ -37,6 +37,9 @@ TRUSTED_BASE = [
     "OCaml driver ocaml/driver.ml (hex<->Z, line protocol), OCaml 4.13.1",
     "Rust harness harness/src/*.rs (catch_unwind, line protocol) and rustc semantics of primitive integer operations",
     "hooks: #[cfg(fpdec_verif)] verif_hooks in fpdec-core (repo commit fbb9d73): one-line forwarders to the private kernels",
+    "translator tools/rs2v.py (Rust subset -> Gallina, 27 integer kernels of fpdec-core -> coq/gen/GenCore.v, regenerated on every run; "
+    "syntax-directed, conventions listed in its header; assumes every variable holds a value in the range of its Rust type); "
+    "the tie lemmas coq/proofs/GenTie*.v prove each translated function equal to the hand-written model",
     "structural tie: tools/fingerprint.py + tools/source_fingerprints.json (item-level digests of the Rust text the model was written from; updated by hand only)",
     "modelled, not verified: core::fmt padding, `as f64/f32` casts, thread_local!, derived Hash, serde/rkyv derives, rustc lexer and const evaluation, opt-level and packed layout (exercised by the correspondence run)",
 ]
@@ -148,6 +151,9 @@ def build_coq(pid, tier="quick"):
     res = dict(ok=False, obligations=0, discharged=0, detail="", theorems=[], failed=None, axioms={})
     rc, out = sh("python3 %s/extract_consts.py" % HERE)
     res["consts"] = out.strip().split("\n")[-1] if out.strip() else ""
+    # the translator: regenerate coq/gen/GenCore.v from /repo's current source (rewritten only when it changes)
+    rc, out = sh("python3 %s/rs2v.py" % HERE, timeout=600)
+    res["translator"] = out.strip().split("\n")[0] if out.strip() else "rs2v did not run"
     if not os.path.exists(os.path.join(COQ, "Makefile")) or \
             os.path.getmtime(os.path.join(COQ, "Makefile")) < os.path.getmtime(os.path.join(COQ, "_CoqProject")):
         sh("coq_makefile -f _CoqProject -o Makefile", cwd=COQ)
@@ -269,6 +275,49 @@ def build_supplement(pid, tier, res):
             return
     res["ok"] = True
     res["discharged"] += len(thms)
+
+
+# Translated functions (tools/rs2v.py) and the tie-lemma file that proves each equal to the hand-written model.
+TIE_GROUPS = {
+    "GenTiePow": ["ten_pow", "checked_ten_pow", "mul_pow_ten", "checked_mul_pow_ten", "i128_div_mod_floor",
+                  "checked_adjust_coeffs", "POWERS_OF_10"],
+    "GenTieMag": ["less_than_5", "u16", "u32", "u64", "u128", "i128_magnitude"],
+    "GenTieWide": ["u128_hi", "u128_lo", "u128_msb", "u128_mul_u128", "u256_idiv_u64", "u256_idiv_u128_special",
+                   "u256_idiv_u128", "i128_shifted_div_mod_floor", "i256_div_mod_floor"],
+    "GenTieRound": ["round_quot", "i128_div_rounded", "i128_shifted_div_rounded", "i128_mul_div_ten_pow_rounded"],
+}
+
+
+def tie_status():
+    """build the tie-lemma files against the freshly translated source; returns (proved function names, report)"""
+    try:
+        st = json.load(open(os.path.join(COQ, "gen", "gencore_status.json")))
+    except (OSError, ValueError):
+        return set(), dict(error="no translator status")
+    targets = " ".join("proofs/%s.vo" % g for g in TIE_GROUPS)
+    sh("timeout 900 make -k -j%d %s 2>&1" % (NPROC, targets), cwd=COQ, timeout=1000)
+    ok_groups, proved = [], set()
+    for g, fns in TIE_GROUPS.items():
+        rc, _ = sh("make -q proofs/%s.vo" % g, cwd=COQ)
+        if rc == 0 and os.path.exists(os.path.join(COQ, "proofs", g + ".vo")):
+            ok_groups.append(g)
+            proved |= {f for f in fns if f in st.get("translated", []) or f == "POWERS_OF_10"}
+    return proved, dict(translated=st.get("translated", []), untranslatable=st.get("failed", {}),
+                        missing=st.get("missing", []), tie_files_checked=ok_groups,
+                        tie_files_broken=[g for g in TIE_GROUPS if g not in ok_groups])
+
+
+def excuse_translated(changed, proved):
+    """a changed Rust item whose regenerated translation is proved equal to the model needs no alarm"""
+    keep, excused = [], []
+    for it in changed:
+        key = it.split(" :: ", 1)[1]
+        m = re.search(r"\bfn (\w+)", key) or re.search(r"\bconst (\w+)", key)
+        if it.startswith("fpdec-core/src/") and m and m.group(1) in proved:
+            excused.append(it)
+        else:
+            keep.append(it)
+    return keep, excused
 
 
 def build_driver():
@@ -595,6 +644,8 @@ def main():
     rows = []
     impl = []
     src_changed = []
+    src_excused = []
+    tie_report = None
     repaired_known = {}
     n_corr_fail = n_acc_fail = 0
     first_corr = None
@@ -605,6 +656,11 @@ def main():
         else:
             import fingerprint
             src_changed = fingerprint.changed_for(pid)
+            if src_changed:
+                proved, tie_report = tie_status()
+                src_changed, src_excused = excuse_translated(src_changed, proved)
+                if src_excused:
+                    log("[%s] changed items whose translation is still proved equal to the model (no alarm): %s" % (pid, "; ".join(src_excused)))
             if src_changed and tier == "quick":
                 log("[%s] source items changed since the model was written (%s): extended exploration" % (pid, "; ".join(src_changed)))
             lines = load_corpus(pid) + gen_cases(pid, seed, tier, escalate=bool(src_changed) and tier == "quick")
@@ -696,6 +752,8 @@ def main():
             supplement_axioms=proof.get("axioms") or None,
             supplement_coqchk=next((v for k, v in proof.items() if k.startswith("coqchk_")), None),
             source_files_changed_since_model=(src_changed if (okd and okh and not replay) else None),
+            translator=proof.get("translator"), translated_items_changed_but_proved_equal=src_excused or None,
+            translator_report=tie_report,
             constants=proof.get("consts"),
             evaluations=len(lines), distinct_nontrivial=nt,
             rule="corpus + deterministic atlas (boundary/tie constructions) + seeded structured mixture (tools/gen.py); "
